@@ -133,7 +133,8 @@ Section P.
       methods _ _ _ c' = methods _ _ _ c ++ repeat mid (s_bsize m) /\
       tlookup (s_class m) (tbl _ _ _ c) = Some mid /\
       n_sampled _ _ _ c' = n_sampled _ _ _ c + s_bsize m /\
-      batch_idx _ _ _ c' = S (batch_idx _ _ _ c) /\ tbl _ _ _ c' = tbl _ _ _ c /\ cfg _ _ _ c' = cfg _ _ _ c.
+      batch_idx _ _ _ c' = S (batch_idx _ _ _ c) /\ tbl _ _ _ c' = tbl _ _ _ c /\ cfg _ _ _ c' = cfg _ _ _ c /\
+      new_params = propose m (params _ _ _ c) (losses _ _ _ c).     (* the rows are what sample() returned on the live history *)
 
   Lemma one_batch_cases s s' o : one_batch s = (s', o) ->
     (exists e, o = Raised e /\ records (live _ _ _ s') = records (live _ _ _ s) /\ disk _ _ _ s' = disk _ _ _ s /\
@@ -179,7 +180,7 @@ Section P.
 
   Lemma appended_inv E0 c c' m : Inv E0 c -> appended_batch c c' m -> Inv E0 c'.
   Proof.
-    intros [HE Hr Hn Hb Hm Hlt Hs] (np & rows & mid & Hnp & Hrows & Hp & Hse & Hlo & Hbn & Hme & Ht & Hns & Hbi & Htb & Hcf).
+    intros [HE Hr Hn Hb Hm Hlt Hs] (np & rows & mid & Hnp & Hrows & Hp & Hse & Hlo & Hbn & Hme & Ht & Hns & Hbi & Htb & Hcf & _).
     rewrite HE in Hrows.
     constructor.
     - congruence.
